@@ -124,8 +124,9 @@ def run_impl(line):
     from crysp import serpent as sp
     t = line.split(); op, a = t[0], t[1:]
     def go():
-        if op == 'serpent.enc': return hx(sp.Serpent(impl_operand(a[0])).enc(impl_operand(a[1])))
-        if op == 'serpent.dec': return hx(sp.Serpent(impl_operand(a[0])).dec(impl_operand(a[1])))
+        if op in ('serpent.enc', 'serpent.dec'):
+            from props.parts import one_object as OO   # the object has already been used for the opposite operation
+            return hx(OO.used(sp.Serpent(impl_operand(a[0])), lambda: impl_operand(a[1]), op[8:]))
         if op == 'serpent.subkeys': return ';'.join(fb(k) for k in sp.Serpent(impl_operand(a[0])).keys)
         if op == 'serpent.S': return fb(sp._S(int(a[0]), mkbits(a[1])))
         if op == 'serpent.Sinv': return fb(sp._Sinv(int(a[0]), mkbits(a[1])))
